@@ -7,6 +7,9 @@ nSequence) environments; ocaml/driver_interp runs the EXTRACTED model (InterpMod
 interp_pk) on the miniscript the implementation decoded, the same stack and environment, and
 compares verdict class and ordered constraint list; a sample of the same comparison is repeated
 inside Coq by vm_compute (Tables/InterpCasesCheck.v) against the implementation's observations.
+from_txdata (src/interpreter/inner.rs) is modelled in coq/Ms/InterpTxdataModel.v; the extracted model is run on
+every spend (incl. the directed malformed stream `ftx-*` of harness/src/interp_ftx.rs) and compared with the real
+outcome: fine error class, or output kind + key / chosen script (through the decoded text) + stack + script code.
 Oracle (independent of the model): the same spend judged by the extracted Script specification
 (verify_spend_ext) with the valid (key, signature) table of that transaction:
   * interpreter accepts  =>  specification accepts            (else: false accept, the replay)
@@ -152,6 +155,12 @@ def report(rep, r, seed, n, budget, only_sid=None):
             rep.violation("driver:%s" % what, b["line"][:300], dict(base, broken_tie="ocaml/driver_interp"), False)
     if only_sid is None:
         for d in r["diff"]:
+            if d.get("line", "").startswith("DIFF ftx"):
+                rep.violation("tie:from_txdata-model", "model of Interpreter::from_txdata and implementation disagree: %s" % d.get("line", "")[:500],
+                              dict(d, property="C13", harness_args=[seed, n, budget],
+                                   broken_tie="correspondence Ms/InterpTxdataModel.v (from_txdata) vs src/interpreter/inner.rs: error class / "
+                                              "output kind + key or chosen script / stack / script code; the spend itself was judged by the oracle"), False)
+                continue
             rep.violation("tie:interp-model", "model of the interpreter and implementation disagree: %s" % d.get("line", "")[:400],
                           dict(d, property="C13", harness_args=[seed, n, budget],
                                broken_tie="correspondence InterpModel.v (interp / interp_pk) vs Interpreter::iter; "
@@ -210,6 +219,9 @@ def run(rep, tier, seed, replay):
         # accepts and from_txdata refuses to decode; on those with a non-minimal IF selector the extracted model,
         # run on the permissively decoded miniscript, rejects too: coq's interp_complete_base_selector_refuted
         "out_of_language_histogram": sub("lang/"), "refutation_reproduced": s.get("refutation_reproduced", 0),
+        "from_txdata_model_equal": s.get("ftx_eq", 0), "from_txdata_model_different": s.get("ftx_diff", 0),
+        "from_txdata_stack_equal": s.get("ftx_stack_eq", 0), "from_txdata_script_stack_code_equal_spec": s.get("ftx_inner_eq", 0),
+        "from_txdata_outcome_histogram": sub("ftx/"),
         "model_runs_equal": s.get("model_eq", 0), "model_runs_different": s.get("model_diff", 0),
         "coq_sample_cases": len(r["coqcases"]), "coq_sample_ok": coq_ok,
         "samples": r["samples"][:12],
